@@ -23,7 +23,8 @@ LEVEL_TEXT = ('Every observed call of a transition function is checked cell by c
               'under actuate_box + ACTUATE + facing, becoming its content; the held item never changes outside pickndrop. '
               'The product door status x 5 colours x 7 held items x 4 relative poses x 8 actions is enumerated each run; '
               'the reachable state graph of 5x5 key-door layouts is explored completely with the real functional_step and '
-              'the rule asserted on every transition (plus: agent beyond the wall implies door open).')
+              'the rule asserted on every transition (plus: agent beyond the wall implies door open).'
+              ' Also: worlds laid out with Grid.from_shape / design.draw_* and door / box factories, nested boxes through the stateful interface, two futures of one state (the first updated in place) compared with the reference.')
 LEVEL_NOTE = ('Trusted: refmodel.ref_actuate_door/ref_actuate_box and the per-cell legality rule in dynmon.analyse. '
               'Larger layouts (7x7, 9x9) and random chains are sampled.')
 SHARDS = {'quick': 4, 'thorough': 16}
